@@ -247,12 +247,24 @@ Proof.
   sb consume_byte_safe. intros s9 H9. cbn. apply PostS_intro; auto. ext.
 Qed.
 
-Lemma consume_decl_safe s : SInv s -> safe (consume_decl text s) (Ext s).
+Lemma consume_decl_loop_safe fuel : forall s, SInv s -> safe (consume_decl_loop text fuel s) (Ext s).
 Proof.
-  intros Hs. unfold consume_decl. cbv zeta.
-  pose proof (skip_bytes_not text s 62 eq_refl Hs) as H1.
-  eapply safe_mono; [eapply consume_byte_safe; eauto; reflexivity|]. intros s2 H2. ext.
+  induction fuel as [|fu IH]; intros s Hs; [exact I|]. cbn [consume_decl_loop]. cbv zeta.
+  assert (H1 : Ext s (skip_bytes (fun x => negb (x =? 62) && negb (x =? 34) && negb (x =? 39)) s)).
+  { apply (skip_bytes_stop text); [|apply Hs]. intros x Hx. unfold is_cont. lia. }
+  set (f := fun x => negb (x =? 62) && negb (x =? 34) && negb (x =? 39)) in *.
+  eapply safe_bind; [apply (curr_byte_safe text); apply H1|]. intros c (r & Hr & Hlt). cbv beta.
+  pose proof (skip_bytes_curr f s c r Hr Hlt) as Hc. unfold f in Hc.
+  assert (Ha : ascii c = true) by (unfold ascii; lia).
+  eapply safe_bind; [eapply (advance1_safe text Hvalid); eauto; apply H1|]. intros s2 H2. cbv beta.
+  destruct (c =? 62); [cbn; ext|]. cbv zeta.
+  pose proof (skip_bytes_not text s2 c Ha ltac:(eauto)) as H3.
+  eapply safe_bind; [eapply (consume_byte_safe text Hvalid); eauto|]. intros s4 H4. cbv beta.
+  eapply safe_mono; [apply IH; eauto|]. intros s5 H5. ext.
 Qed.
+
+Lemma consume_decl_safe s : SInv s -> safe (consume_decl text s) (Ext s).
+Proof. intros Hs. unfold consume_decl. apply consume_decl_loop_safe. exact Hs. Qed.
 
 Lemma parse_doctype_start_safe s : SInv s -> starts_with s (b "<!DOCTYPE") = true ->
   safe (parse_doctype_start text s)
